@@ -577,11 +577,16 @@ func c09R6(r *Run, pf, mf *c09fn) {
 			if ec, ok := d.(*ssa.Call); ok && CalleeOf(ec) == "(reflect.Value).Elem" && fieldOfV(ec.Call.Args[0], vpv) != nil {
 				return "elem"
 			}
-			if ph, ok := d.(*ssa.Phi); ok && len(ph.Edges) == 2 {
-				return "merge"
+			if _, ok := d.(*ssa.Phi); ok {
+				return "merge" // (which of the forms arrives is decided per row, on the edges its walk takes: coded-operand)
 			}
 			return ""
 		}
+		idxTerm := c09FieldIndexTerm(c, ftis[0])
+		ptrOps := c09PointerOnlyOps(c, vpv)
+		// what the operand of the coding call is in the rows that code the field (coded-operand)
+		opndOK, nElemRows, nPlainRows := idxTerm != "", 0, 0
+		var opndBad []string
 		okLoop := true
 		for _, rec := range recs {
 			okLoop = okLoop && loopHeadOf(rec) == head
@@ -708,12 +713,31 @@ func c09R6(r *Run, pf, mf *c09fn) {
 				if len(ran) > 1 {
 					coded = rw.want == "error" || rw.want == "skip" // (so that the row fails: the field would be coded more than once)
 				}
+				if len(ran) == 1 && (rw.want == "plain" || rw.want == "chosen") {
+					// the value the one executing coding call receives, on the edges this row's walk takes
+					fs := c09OperandForms(r, opnd(ran[0]), vpv, idxTerm, reach)
+					wantForm := map[string]string{"plain": "plain", "chosen": "elem"}[rw.want]
+					if len(fs) == 1 && fs[0] == wantForm {
+						if rw.want == "plain" {
+							nPlainRows++
+						} else {
+							nElemRows++ // (that the selector is marked served in this iteration is the row's own demand)
+						}
+					} else {
+						opndOK = false
+						opndBad = append(opndBad, fmt.Sprintf("row %s codes %v, expected %s", strings.Join(vs, ","), fs, map[string]string{"plain": "v.Field(i)", "elem": "v.Field(i).Elem()"}[wantForm]))
+					}
+				}
 				var ok bool
 				switch rw.want {
 				case "plain":
 					ok = coded && cont && len(rets) == 0 && !any(reach, zero) && !any(reach, alloc) && !any(reach, mark)
 				case "error":
 					ok = !coded && !cont && allErr(rets)
+					if rw.ptr == ">" {
+						// the field is not a pointer: nothing that is only defined on pointers may run
+						ok = ok && !any(reach, ptrOps)
+					}
 				case "skip":
 					ok = !coded && cont && len(rets) == 0 && !any(reach, mark) && !any(reach, alloc) && (!dec || any(reach, zero))
 				case "chosen":
@@ -724,43 +748,30 @@ func c09R6(r *Run, pf, mf *c09fn) {
 					ok = ok && any(reach, unmark) == (rw.first == "F")
 				}
 				r.Check(key, ok, r.Where(ftis[0]),
-					fmt.Sprintf("expected %s; coded(once, in the form of the row)=%v [%d coding calls run] continues=%v returns=%d setnil=%v alloc=%v marked=%v reset=%v", rw.want, coded, len(ran), cont, len(rets), any(reach, zero), any(reach, alloc), any(reach, mark), any(reach, unmark)))
+					c09RowText(rw.want, rw.known, rw.ptr, rw.choice, rw.seen, rw.nilptr, dec)+fmt.Sprintf(": expected %s; pointer-only operations on the field run=%v coded(once, in the form of the row)=%v [%d coding calls run] continues=%v returns=%d setnil=%v alloc=%v marked=%v reset=%v", rw.want, any(reach, ptrOps), coded, len(ran), cont, len(rets), any(reach, zero), any(reach, alloc), any(reach, mark), any(reach, unmark)))
 			})
 			if err != nil {
 				r.Fail(key, r.FnPos(fn), "undecided: "+err.Error())
 			}
 		}
-		// what is coded when chosen: the pointed-to value; otherwise the field itself
-		okDst, nElemAll, nPlainAll := true, 0, 0
-		for _, rc := range recs {
-			switch form(rc) {
-			case "merge":
-				ph := opnd(rc).(*ssa.Phi)
-				nElem, nPlain := 0, 0
-				for i, ed := range ph.Edges {
-					served := anyDominated(mark, ph.Block().Preds[i])
-					if fieldOfV(ed, vpv) != nil && !served {
-						nPlain++
-					} else if ec, ok := ed.(*ssa.Call); ok && CalleeOf(ec) == "(reflect.Value).Elem" && fieldOfV(ec.Call.Args[0], vpv) != nil && served {
-						nElem++
-					}
-				}
-				okDst = okDst && nElem == 1 && nPlain == 1
-				nElemAll += nElem
-				nPlainAll += nPlain
-			case "plain":
-				// (that it runs for plain fields only is the table's "plain" row)
-				okDst = okDst && !anyDominated(mark, rc.Block())
-				nPlainAll++
-			case "elem":
-				okDst = okDst && anyDominated(mark, rc.Block())
-				nElemAll++
-			default:
-				okDst = false
-			}
+		// what is coded when chosen: the pointed-to value; otherwise the field itself.  Decided per row
+		// above, on the walk of the row (a fact of the paths that code the field, not of dominators:
+		// the bookkeeping may sit in a helper whose "chosen" / "not chosen" answers meet before the
+		// caller acts on them).  That the selector is marked served in the iteration that codes a
+		// chosen variant is demanded by the "chosen" rows; the order of the mark and the coding call
+		// inside that iteration is not part of the property (the map is local to this call and read
+		// again only in later iterations and after the loop).
+		okDst := opndOK && nElemRows >= 1 && nPlainRows >= 1
+		detail := "a chosen variant codes v.Field(i).Elem() (and is marked served in that iteration); a plain field codes v.Field(i)"
+		switch {
+		case idxTerm == "":
+			detail = "undecided: the index of the field whose tag is looked up is not of the form structType.Field(i).Name; " + detail
+		case len(opndBad) > 0:
+			detail += ": " + strings.Join(opndBad, "; ")
+		case !okDst:
+			detail += fmt.Sprintf(": exactly one coding call runs in %d of the rows that call for a plain field and in %d of the rows that call for a chosen variant (at least one each expected; see the rows)", nPlainRows, nElemRows)
 		}
-		okDst = okDst && nElemAll >= 1 && nPlainAll >= 1
-		r.Check(kp+"coded-operand", okDst, r.Where(rec), "a chosen variant codes v.Field(i).Elem() (after being marked served); a plain field codes v.Field(i)")
+		r.Check(kp+"coded-operand", okDst, r.Where(rec), detail)
 		if dec {
 			okA := len(alloc) == 1
 			if okA {
